@@ -12,12 +12,13 @@ from vf.peers import Peer, healthy_reply, http_response
 LEVEL = "fault_enumeration"
 SHARDS = {"quick": 8, "thorough": 16}
 TIMEOUT = {"quick": 300, "thorough": 2400}
-SYMBOLS = ["H", "Hc", "R", "D", "X", "S", "N", "B", "T", "Z", "J", "St"]
+SYMBOLS = ["H", "Hc", "R", "D", "X", "S", "N", "B", "T", "Z", "J", "St", "I"]
 MEANING = {"H": "healthy reply, keep-alive", "Hc": "healthy reply, then close", "R": "refuse: listener closed and reopened",
            "D": "close before reply", "X": "reset (SO_LINGER 0)", "S": "4xx/5xx with Content-Length",
            "N": "5xx without length, then close", "B": "bodiless non-200 status", "T": "truncated body",
-           "Z": "empty 200", "J": "non-JSON 200", "St": "4xx/5xx whose body is truncated, then close"}
-RULE = ("fault sequences over the 12-symbol alphabet {St non-200 with a truncated body, H healthy keep-alive, Hc healthy then close, R refuse, D close before "
+           "Z": "empty 200", "J": "non-JSON 200", "St": "4xx/5xx whose body is truncated, then close",
+           "I": "bodiless interim status (102 / 103, no length header) followed by the healthy final reply, keep-alive"}
+RULE = ("fault sequences over the 13-symbol alphabet {I bodiless interim 102/103 status followed by the final reply, St non-200 with a truncated body, H healthy keep-alive, Hc healthy then close, R refuse, D close before "
         "reply, X reset, S 4xx/5xx with Content-Length, N 5xx without length then close, B bodiless status, T truncated "
         "body, Z empty 200, J non-JSON 200}: quick = all sequences of length <= 3 on TCP and <= 2 on Unix; "
         "thorough = all of length <= 4 on TCP and <= 3 on Unix plus random ones of length 5-10; plain calls, and (lengths "
@@ -98,6 +99,15 @@ def make_decide(peer_box, script):
                 (204, "No Content", False), (304, "Not Modified", False)])
             action = {"send": http_response(status, reason, b"", keep_alive=True, content_length=with_length),
                       "close": False}
+        elif sym == "I":
+            # an interim reply as RFC 7231 / 8297 allow it (no body, no length), the final reply right behind it
+            status, reason = script.rng.choice([(103, "Early Hints"), (102, "Processing")])
+            interim = ("HTTP/1.1 %d %s\r\nLink: </x>; rel=preload\r\n\r\n" % (status, reason)).encode("ascii")
+            if script.rng.random() < 0.5:
+                action = {"send": interim + healthy_reply(req), "close": False}
+            else:
+                # ... or a moment later, as a server that sends hints while it computes the answer would
+                action = {"send": interim, "then": (script.rng.choice([0.02, 0.05]), healthy_reply(req)), "close": False}
         elif sym == "T":
             full = healthy_reply(req, keep_alive=False)
             cut = max(full.index(b"\r\n\r\n") + 5, len(full) - script.rng.randint(1, 12))
@@ -193,7 +203,8 @@ def play(ctx, rng, fam, seq, peer, box, label, batches=False):
             if out[1] != {"token": token}:
                 ctx.violate("foreign-or-stale-result-returned", ccase,
                             {"returned": out[1], "own_token": token, "calls": calls})
-            elif prev_ok and last[0] not in ("H", "Hc", "H*"):
+            elif prev_ok and last[0] not in ("H", "Hc", "H*", "I"):
+                # (the final reply behind an interim one is this call's own answer: returning it is right, too)
                 ctx.violate("value-returned-although-own-exchange-was-" + str(last[0]), ccase, {"calls": calls})
         else:
             ex = out[1]
@@ -205,7 +216,7 @@ def play(ctx, rng, fam, seq, peer, box, label, batches=False):
                                 {"errcode": getattr(ex, "errcode", None), "own_statuses": statuses, "calls": calls})
                 elif fam == "tcp" and not ("127.0.0.1:%d" % peer.port in str(ex.url) and "/rpc" in str(ex.url)):
                     ctx.violate("TransportError-without-the-url", ccase, {"url": getattr(ex, "url", None)})
-            elif prev_ok and last[0] in ("S", "N", "B", "St"):
+            elif prev_ok and last[0] in ("S", "N", "B", "St", "I"):
                 # clean connection, this call's own (last) exchange was a non-200 reply
                 ctx.violate("non-200-not-surfaced-as-TransportError:" + last[0], ccase,
                             {"raised": ex, "status": last[1]})
